@@ -10,9 +10,10 @@ def gen_script(rng, nops, max_live):
     nworlds = 0
     live = []
     handles = []       # (world, alive)
+    gone = set()
     for _ in range(nops):
         c = rng.weighted([('new', 14 if len(live) < max_live else 0), ('del', 8 if live else 0), ('create', 30 if live else 0),
-                          ('destroynow', 14 if handles else 0), ('update', 5 if live else 0), ('probe', 6 if live else 0), ('evprobe', 6 if live else 0), ('lockedforeign', 10 if len(live) > 1 and handles else 0)])
+                          ('destroynow', 14 if handles else 0), ('update', 5 if live else 0), ('probe', 6 if live else 0), ('evprobe', 6 if live else 0), ('lockedforeign', 10 if len(live) > 1 and handles else 0), ('destroypair', 6 if len(live) > 1 and handles else 0)])
         if c in ('probe', 'evprobe'):
             lines.append('%s %d' % (c, rng.pick(live)))
             continue
@@ -31,6 +32,14 @@ def gen_script(rng, nops, max_live):
                 lines.append('destroynow %d %d' % (k, h))
         elif c == 'update':
             lines.append('update %d' % rng.pick(live))
+        elif c == 'destroypair':
+            own = [h for h, w in enumerate(handles) if w in live and h not in gone]
+            if own:
+                h = rng.pick(own)
+                foreign = [g for g, w in enumerate(handles) if w in live and w != handles[h]]
+                if foreign:
+                    lines.append('destroypair %d %d %d %d' % (handles[h], h, rng.pick(foreign), rng.below(2)))
+                    gone.add(h)
         elif c == 'lockedforeign':
             own = [h for h, w in enumerate(handles) if w in live]
             if own:
@@ -95,6 +104,13 @@ def tier_a(impl):
                 target = int(t[1])
                 if len(r) > 1 and r[1:] != ['probe', 'create=1', 'assign=1']:
                     fail = 'world w%s does not honour a dependency declared on it (%s): worlds do not behave identically' % (t[1], ' '.join(r[2:])); break
+            elif t[0] == 'destroypair':
+                target = int(t[1])
+                if len(r) > 1:
+                    if r[1:] != ['destroypair', 'alive=0']:
+                        fail = "world w%s was asked to destroy its own entity #%s and a handle of another world (#%s) before one update: its own entity is still alive" % (t[1], t[2], t[3]); break
+                    if int(t[2]) < len(alive):
+                        alive[int(t[2])] = False
             elif t[0] == 'lockedforeign':
                 target = int(t[1])
                 if len(r) > 1 and r[1:] != ['lockedforeign', 'alive=1', 'c0=1', 'c1=1']:
